@@ -800,6 +800,7 @@ func canonicalNumeralFields(v core.Val) (core.Val, bool) {
 	changed := false
 	var walk func(x core.Val, inFields bool) core.Val
 	walk = func(x core.Val, inFields bool) core.Val {
+		prevIsMerge := map[string]bool{}
 		out := x
 		if x.L != nil {
 			out.L = make([]core.Val, len(x.L))
@@ -818,6 +819,28 @@ func canonicalNumeralFields(v core.Val) (core.Val, bool) {
 					}
 				}
 				out.M[i] = core.KV{K: k, V: walk(e.V, string(e.K) == "f>")}
+			}
+			if inFields {
+				// names that become the same index ("001" and "+1") were both explored by the walk: their selectors are
+				// merged into a union under the canonical name (at the first one's position)
+				var merged []core.KV
+				at := map[string]int{}
+				for _, e := range out.M {
+					if j, dup := at[string(e.K)]; dup {
+						prev := merged[j].V
+						if len(prev.M) == 1 && string(prev.M[0].K) == "|" && prev.M[0].V.K == '[' && prev.K == '{' && prev.M[0].V.L != nil && merged[j].K != nil && prevIsMerge[string(e.K)] {
+							prev.M[0].V.L = append(prev.M[0].V.L, e.V)
+							merged[j].V = prev
+						} else {
+							merged[j].V = core.Map(core.KV{K: []byte("|"), V: core.List(prev, e.V)})
+							prevIsMerge[string(e.K)] = true
+						}
+						continue
+					}
+					at[string(e.K)] = len(merged)
+					merged = append(merged, e)
+				}
+				out.M = merged
 			}
 		}
 		return out
